@@ -860,10 +860,35 @@ class Evaluator:
                     for nm in names:
                         if sc.vars.get(nm) is not None:
                             sc.vars[nm] = T("if", st, mod, cond=gc, then=sc.vars[nm], other=lvs_[nm])
+                # tuple states that split into component loops: the OTHER variables of the same loop read them through
+                # state[i] as well - those reads become the component's loop variable
+                split_names = {}
+                if r is None:
+                    for nm in names:
+                        i0 = init[nm]
+                        if i0 is not None and i0.op == "tuple" and sc.vars.get(nm) is not None:
+                            probe = T("loop", st, mod, name=nm, init=i0, next=sc.vars.get(nm), it=it, cond=cond)
+                            if _split_tuple_state(probe) is not None:
+                                split_names[nm] = i0
+
+                def _sib(t):
+                    if not split_names or t is None:
+                        return t
+                    from .tutil import tmap
+
+                    def f(x):
+                        if x.op == "sub" and x.obj.op == "loopvar" and x.obj.name in split_names and x.obj.node is st and x.idx.op == "const" and type(x.idx.value) is int and 0 <= x.idx.value < len(split_names[x.obj.name].elts):
+                            return T("loopvar", st, mod, name=f"{x.obj.name}.{x.idx.value}", init=split_names[x.obj.name].elts[x.idx.value])
+                        return x
+
+                    return tmap(t, f)
+
                 for nm in names:
                     nxt = sc.vars.get(nm)
+                    if nm not in split_names:
+                        nxt = _sib(nxt)
                     lp = T(
-                        "loop", st, mod, name=nm, init=init[nm] if init[nm] is not None else unknown(f"unbound:{nm}"), next=nxt, it=it, cond=cond
+                        "loop", st, mod, name=nm, init=init[nm] if init[nm] is not None else unknown(f"unbound:{nm}"), next=nxt, it=it, cond=cond if nm in split_names else _sib(cond)
                     )
                     self.loops.append(lp)
                     sp = _split_tuple_state(lp) if r is None else None
